@@ -260,33 +260,36 @@ PROPS["C09"] = dict(
         K("c09", "c09_rook_unoptimized_contract", desc="rook_unoptimized(s,occ).test(t) <=> t on a rook line from s and all squares "
           "strictly between empty; symbolic s, t, occ", functions=UNOPT[:1], timeout=2400, heavy=True),
         K("c09", "c09_bishop_unoptimized_contract", desc="same for bishop diagonals", functions=UNOPT[1:], timeout=2400, heavy=True),
-        K("c09", "c09_slide_masks_contract", desc="slide masks == line squares minus the last square of each ray", functions=["data::compute_rook_slide_masks", "data::compute_bishop_slide_masks"], timeout=1500),
         K("c09", "c09_lemma_off_mask_blockers_irrelevant", desc="spec-level lemma: blockers outside the slide mask never change the "
           "slider attack set (with the unopt and mask contracts: unopt(s,occ) == unopt(s, occ & mask(s)))", functions=[], timeout=1500),
         K("c09", "c09_blockers_from_index_contract", desc="compute_blockers_from_index deposits the low bits of the index into the "
           "mask (so indexes 0..2^popcount enumerate every subset exactly once)", functions=["data::compute_blockers_from_index"]),
     ] + [
-        K("c09", "c09_%s_magics_%s" % (k, r), desc="the real %s magic constants of squares %s: colliding subsets of the slide mask "
-          "have equal attack sets; index < 4096; index width >= popcount(mask)" % (k, r),
-          functions=["data::%s_MAGICS" % k.upper(), "data::%s_MAGIC_INDEXES" % k.upper()], timeout=2400, tier="quick" if r == "00_15" else "thorough")
-        for k in ["rook", "bishop"] for r in ["00_15", "16_31", "32_47", "48_63"]
+        dict(name="c09_magic_constants_hash_perfectly", backend="smt", kind="smt", tier="quick", file="c09.rs",
+             cmd=["python3-vt", "driver/magic_vc.py", "{src}/weechess-core/src/attacks.rs"],
+             desc="the real ROOK/BISHOP magic constants and index widths, extracted from attacks.rs on every run: for every one of the 128 "
+             "(piece, square) pairs no two blocker subsets of the slide mask with different attack sets share a table index "
+             "(64-bit machine multiplication and shift as bit-vectors), and 1 <= width <= 12, width >= popcount(mask); 128 queries, all unsat",
+             functions=["data::ROOK_MAGICS", "data::BISHOP_MAGICS", "data::ROOK_MAGIC_INDEXES", "data::BISHOP_MAGIC_INDEXES"], timeout=900),
     ] + [
         dict(name="c09_native_magic_tables_exhaustive", backend="native", kind="bounded", tier="quick", crate=CORE, file="c09.rs",
              test="c09_native_magic_tables_exhaustive", bound="native execution (not symbolic): every square x every subset of its "
-             "slide mask x 3 off-mask noise patterns, rook, bishop and queen look-ups", desc="the REAL table builders and "
-             "look-ups against the geometric spec", functions=["data::compute_rook_magic_table", "data::compute_bishop_magic_table",
+             "slide mask x 3 off-mask noise patterns, rook, bishop and queen look-ups; slide masks for all 64 x 64 square pairs",
+             desc="the REAL table builders, look-ups and slide masks against the geometric spec", functions=["data::compute_rook_magic_table", "data::compute_bishop_magic_table",
              "AttackGenerator::compute_{rook,bishop,queen}_attacks"], timeout=1800),
     ],
     assumptions=["the composition 'look-up after fill == unopt' needs the two fill loops (262 144 iterations over Vec), which cannot be "
                  "executed symbolically here; given the subset-enumeration, perfect-hashing and off-mask obligations the fill loop can "
                  "only fail by not being the loop it appears to be; that gap is covered by the native exhaustive stand-in only"],
-    technique="Kani/CBMC: geometry contracts of the ray/leaper/slider generators pointwise at symbolic squares; perfect hashing of the "
-              "real magic constants per square; native exhaustive run for the table fill (bounded stand-in)",
+    technique="Kani/CBMC: geometry contracts of the ray/leaper/slider generators pointwise at symbolic squares; z3 on generated "
+              "verification conditions for the perfect hashing of the real magic constants; native exhaustive run for the table fill "
+              "and slide masks (bounded stand-in)",
     level_text="Proof for geometry and for the perfect hashing of the real constants: Square::offset and BitBoard::shift never wrap; the "
                "knight/king/pawn tables (through the real lazy statics), compute_ray, RAYS, both unoptimised slider generators "
-               "(symbolic square, target and occupancy against ray walking up to the first blocker), the slide masks and the "
-               "subset enumeration are proved against file/rank arithmetic; for every square the real magic multipliers are proved "
-               "collision-free on attack sets with index < 4096. The filled tables and look-ups themselves are a bounded stand-in.",
+               "(symbolic square, target and occupancy against ray walking up to the first blocker) and the subset enumeration "
+               "are proved against file/rank arithmetic; for every square the real magic multipliers (extracted every run) are proved "
+               "collision-free on attack sets by z3. The slide-mask tables, the filled magic tables and the look-ups are a bounded "
+               "(native, exhaustive) stand-in.",
     level_note="Table fill loops and the final look-up expression: native exhaustive stand-in (all squares x all mask subsets x 3 noise "
                "patterns), reported as bounded, never as proved.",
 )
